@@ -28,7 +28,7 @@ package proxyproto
 //@ requires r != nil
 //@ requires 1 <= idx && idx <= 107 && len(buf) >= 108
 //@ requires forall k int :: 0 <= k && k < 108 ==> (k < idx ==> buf[k] == stream(r)[pos(r) - idx + k])
-//@ modifies pos(r), buf[*]
+//@ modifies pos(r), rdFailed(r), buf[*]
 //@ ensures pos(r) <= old(pos(r)) + 107 - idx
 //@ ensures err == nil ==> len(result) == pos(r) - old(pos(r)) + idx - 2 && base(result) == base(buf) && off(result) == off(buf)
 //@ ensures err == nil ==> len(result) >= idx - 1 && len(result) <= 105
@@ -72,7 +72,7 @@ package proxyproto
 //@ property C08 C12
 //@ requires r != nil && len(buf) >= 232
 //@ requires forall k int :: 0 <= k && k < 13 ==> buf[k] == stream(r)[pos(r) - 13 + k]
-//@ modifies *, pos(r)
+//@ modifies *, pos(r), rdFailed(r)
 //@ ensures err == nil ==> result != nil && hdrOK(result)
 //@ ensures pos(r) <= old(pos(r)) + 94
 //@ ensures err == nil ==> crlfAt(stream(r), pos(r) - 2) && pos(r) - 2 >= old(pos(r)) - 13 + v1scanStart(stream(r), old(pos(r)) - 13)
@@ -89,7 +89,7 @@ package proxyproto
 //@ func readV2Header
 //@ property C08 C12
 //@ requires r != nil && len(buf) >= 16
-//@ modifies *, pos(r)
+//@ modifies *, pos(r), rdFailed(r)
 //@ ensures err == nil ==> result != nil && fresh(result)
 //@ ensures err == nil && old(buf[12]) % 16 == 1 && famInet(stream(r)[old(pos(r))]) ==> !result.IsLocal && result.Source != nil && result.Destination != nil
 //@ ensures err == nil && old(buf[12]) % 16 == 1 && stream(r)[old(pos(r))] == 17 ==> result.Source is *net.TCPAddr && result.Source.(*net.TCPAddr).Port == 256*stream(r)[old(pos(r)) + 11] + stream(r)[old(pos(r)) + 12] && result.Destination.(*net.TCPAddr).Port == 256*stream(r)[old(pos(r)) + 13] + stream(r)[old(pos(r)) + 14]
@@ -102,7 +102,7 @@ package proxyproto
 //@ func ReadV2Header
 //@ property C08 C12
 //@ requires r != nil
-//@ modifies *, pos(r)
+//@ modifies *, pos(r), rdFailed(r)
 //@ ensures err == nil ==> result != nil
 //@ ensures err == nil ==> pos(r) == old(pos(r)) + 16 + v2len(stream(r), old(pos(r)))
 //@ ensures pos(r) <= old(pos(r)) + 16 + v2len(stream(r), old(pos(r)))
@@ -111,7 +111,7 @@ package proxyproto
 //@ func ReadHeader
 //@ property C08 C12
 //@ requires r != nil
-//@ modifies *, pos(r)
+//@ modifies *, pos(r), rdFailed(r)
 //@ ensures err == nil ==> result != nil
 //@ ensures err == nil && isV2sig(stream(r), old(pos(r))) && stream(r)[old(pos(r)) + 12] % 16 == 1 && famInet(stream(r)[old(pos(r)) + 13]) ==> !result.IsLocal && result.Source != nil && result.Destination != nil
 //@ ensures err == nil && !isV2sig(stream(r), old(pos(r))) ==> hdrOK(result)
